@@ -57,7 +57,7 @@ inductive Res (α : Type) where
   | ok (a : α)
   | err (e : Err)
   | panic
-deriving Repr
+deriving Repr, DecidableEq
 
 namespace Res
 variable {α β : Type}
@@ -141,7 +141,7 @@ structure Proof (D : Type) where
   height : Nat
   leafs : List (Nat × D)
   auth : List D
-deriving Repr
+deriving Repr, DecidableEq
 
 structure Partial (D : Type) where
   height : Nat
@@ -247,7 +247,7 @@ end Verify
 
 structure Tree (D : Type) where
   nodes : List D
-deriving Repr
+deriving Repr, DecidableEq
 
 section TreeOps
 variable {D : Type}
